@@ -36,8 +36,9 @@ Definition enc_vfunc (f : vfunc) : sx :=
      ++ match vf_ret f with Some v => [L [I 6; I (index_of v ids 0)]] | None => [] end
      ++ [L [I 7]]).
 
-Definition enc_lower (p : sprog) : sx :=
-  match c21_lower p with None => I (-1) | Some f => enc_vfunc f end.
+Definition enc_lower_v (rej8 : bool) (p : sprog) : sx :=
+  match c21_lower_v rej8 p with None => I (-1) | Some f => enc_vfunc f end.
+Definition enc_lower (p : sprog) : sx := enc_lower_v c21_rejects_imul8 p.
 
 Definition wbits (w : width) : Z := bits w.
 Definition enc_instr (i : instr) : sx :=
@@ -61,13 +62,14 @@ Definition alloc_of (f : vfunc) (al : list Z) : vreg -> reg :=
 Definition mkver (shift by_index : bool) : version := mkVer shift by_index.
 
 (* -> [ emitted instruction list ; alloc_ok ] *)
-Definition enc_finish (ver : version) (p : sprog) (al : list Z) : sx :=
-  match c21_lower p with
+Definition enc_finish_v (rej8 : bool) (ver : version) (p : sprog) (al : list Z) : sx :=
+  match c21_lower_v rej8 p with
   | None => I (-1)
   | Some f =>
       let a := alloc_of f al in
       L [L (map enc_instr (c21_finish ver (sp_w p) a f)); sB (alloc_ok a f)]
   end.
+Definition enc_finish (ver : version) (p : sprog) (al : list Z) : sx := enc_finish_v c21_rejects_imul8 ver p al.
 
 (* machine run of a (parsed, real) instruction list from an ABI entry state *)
 Fixpoint assoc_reg (l : list (Z * Z)) (r : Z) : Z :=
